@@ -55,6 +55,40 @@ def mul(x, y):
     return P if x == y else N
 
 
+def smax(x, y):
+    if T in (x, y):
+        return T
+    if x == ONE and y == ONE:
+        return ONE
+    px, py = pos(x), pos(y)
+    if P in (px, py):
+        if (x == ONE and py in (Z, N)) or (y == ONE and px in (Z, N)):
+            return ONE
+        return P
+    if Z in (px, py):
+        return Z
+    return N
+
+
+def smin(x, y):
+    if T in (x, y):
+        return T
+    if ONE in (x, y):
+        return _smin_one(x, y)
+    return neg(smax(neg(x), neg(y)))
+
+
+def _smin_one(x, y):
+    px, py = pos(x), pos(y)
+    if N in (px, py):
+        return N
+    if Z in (px, py):
+        return Z
+    if x == ONE and y == ONE:
+        return ONE
+    return P          # min(1, positive) is positive
+
+
 def ev_tree(t, a, b):
     """evaluate an elementwise expression tree over the pair (a, b).
     tree: 'a' | 'b' | ('c', sign) | ('+', l, r) | ('-', l, r) | ('*', l, r) | ('neg', x) | ('abs', x)"""
